@@ -201,7 +201,7 @@ def table_item(kind: str, dtm_frame: tuple[str, str], variant: str) -> tuple[dic
         m = m0 if cached else mk()
         fl = X.exp_flag(m)
         flags.append(fl)
-        base = {"k": "tick", "code": 0, "form": "", "cs": [], "vs": [], "life": 0, "t": 1 + age, "c": 0,
+        base = {"k": "tick", "code": 0, "form": "", "cs": [], "vs": [], "life": 0, "t": 1 + age, "sk": 0, "c": 0,
                 "a": 0, "obs": 0, "slots": [], "exp": [fl], "mcs": [], "mvs": [], "mlife": 0}
         if first:
             # receipt is at t = 1 (age 0); if age 0 is left out the first reading is later
